@@ -87,7 +87,7 @@ def parse(text):
                 cur.nodes[nid] = Node(nid, op, a, b)
         elif tag == "d":
             f = line.split(" ")
-            cur.decisions.append(Decision(f[1], int(f[2]), int(f[3]), f[4] == "1", f[5] == "1"))
+            cur.decisions.append(Decision(f[1], int(f[2]), int(f[3]), f[4] == "1", int(f[5])))
         elif tag == "o":
             f = line.split(" ")
             o = Out(f[1], int(f[2]), int(f[3]), [int(x) for x in f[4:]])
